@@ -372,7 +372,6 @@ func orEmpty(d []simrt.Decision) []simrt.Decision {
 	return d
 }
 
-
 // probe runs one explicit workload (a replay file's "workload", decisions ignored) under VERIF_RUNS
 // seeded schedules of every policy and prints how often each violation identity showed: a
 // directed question ("can the machinery reach this at all?") for diagnosing a miss.
